@@ -154,27 +154,40 @@ def rule_C15(env):
                     first_write = min(i for i, e in enumerate(lf["run"].events) if e[0] in ("out", "out_truncate", "out_patch", "out_clear")) if wrote else None
                     if first_write is not None and ga[0][2] > first_write:
                         res.add("R15.a", "%s/%s/write-before-gate" % (short, name), "%s::post_process writes to the output before the rate gate" % short, env.loc(key))
-                # R15.b gate semantics on this path
+                # R15.b gate semantics: collected per method below (all comparisons with the rate on the path form the gate)
                 v, outcome, _ = ga[0]
                 rate = lf["rate"]
                 draw = v.args[0] if v.args[1] is rate else v.args[1]
                 draw_first = v.args[1] is rate
                 classes = draw_classes(draw) if is_sym(draw) or isinstance(draw, float) else ["any"]
-                for cls in classes:
-                    for d in samples_of(cls):
-                        for rt, want in ((0.0, False), (1.0, True)):
-                            val = CMP[v.op](d, rt) if draw_first else CMP[v.op](rt, d)
-                            opened = (val == outcome)
-                            if opened != want:
-                                res.add("R15.b", "%s/%s/rate-%s" % (short, name, "0" if rt == 0.0 else "1"),
-                                        "%s::%s: the gate `%s %s rate` %s at rate %.1f when the draw is %r (draw class %r)" % (
-                                            short, name, "draw" if draw_first else "rate", v.op, "opens (mutation applied)" if opened else "stays closed (no mutation)", rt, d, cls),
-                                        env.loc(key), {"gate": v.show(), "draw": repr(draw)})
+                lf["_gate"] = [(x.op, x.args[1] is rate, oc) for x, oc, _ in ga
+                               if (x.args[0] is draw and x.args[1] is rate) or (x.args[1] is draw and x.args[0] is rate)]
+                lf["_classes"] = classes
+                lf["_gate_show"] = v.show()
                 if len(samples) < 6:
                     samples.append({"mutator": short, "method": name, "gate": v.show(), "taken_when": outcome, "draw_classes": [repr(c) for c in classes]})
             if fires:
                 ngates += 1
                 res.count("gates")
+                # a firing path is open for (draw d, rate r) when every gate comparison on it evaluates to the outcome the path took.
+                # rate 0.0: no firing path may be open for any draw value; rate 1.0: for every draw value some firing path is open.
+                allcls = []
+                for lf in fires:
+                    for c in lf.get("_classes", []):
+                        if c not in allcls:
+                            allcls.append(c)
+
+                def open_(lf, d, rt):
+                    return all((CMP[op](d, rt) if dfirst else CMP[op](rt, d)) == oc for op, dfirst, oc in lf.get("_gate", []))
+                gated = [lf for lf in fires if lf.get("_gate")]
+                for cls in allcls:
+                    for d in samples_of(cls):
+                        if any(open_(lf, d, 0.0) for lf in gated if cls in lf["_classes"]):
+                            res.add("R15.b", "%s/%s/rate-0" % (short, name), "%s::%s: the gate (%s) opens (mutation applied) at rate 0.0 when the draw is %r (draw class %r)" % (
+                                short, name, gated[0]["_gate_show"], d, cls), env.loc(key))
+                        if gated and not any(open_(lf, d, 1.0) for lf in gated if cls in lf["_classes"]):
+                            res.add("R15.b", "%s/%s/rate-1" % (short, name), "%s::%s: the gate (%s) stays closed (no mutation) at rate 1.0 when the draw is %r (draw class %r)" % (
+                                short, name, gated[0]["_gate_show"], d, cls), env.loc(key))
     res.floor("gates", 14, "gated mutator methods")
     # R15.c: first-applicable-mutator-wins loops in generator::mutation
     nloops = loop_rules(env, res)
@@ -221,7 +234,10 @@ def loop_rules(env, res):
                 return none()
             mods.extra["virtual"] = virt
             I = Interp(prog, run, mods)
-            h = ctx.make_generator(depth_bound=2, mutators=G.AbsMutators(ctx, max_iter=3))
+            ms = G.AbsMutators(ctx, max_iter=3)
+            if run.choose(2, "mutator list known to be non-empty") == 1:
+                ms.empty = False        # whatever else the generator's fields say, a registered mutator must be consulted
+            h = ctx.make_generator(depth_bound=2, mutators=ms)
             val = input_for(name)
             src = G.AbsSource(prog)
             one.last = (h, val, calls, None)
@@ -250,8 +266,11 @@ def loop_rules(env, res):
             else:
                 if not same_value(r, val):
                     res.add("R15.c", "%s/result-not-original" % name, "Generator::%s alters the value although no mutator applied" % name, env.loc(key))
-                if h.mutators.empty is False and len(calls) == 0:
-                    res.add("R15.c", "%s/skips-mutators" % name, "Generator::%s does not consult the registered mutators" % name, env.loc(key))
+                rate_decided = any(G.contains_obj(a[0], h.special["mutation_rate"]) for a in run.atom_log)
+                if h.mutators.empty is False and len(calls) == 0 and not rate_decided:
+                    why = h.extra_gen_read_at_entry(run.atom_log, ())
+                    res.add("R15.c", "%s/skips-mutators" % name, "Generator::%s can return the value unmutated without consulting the registered mutators%s" % (
+                        name, (" (decided by Generator.%s, which is neither the mutator list nor the rate)" % ", ".join(why)) if why else ""), env.loc(key))
     res.floor("R15.c", 6, "value-mutation loops")
     return n
 
